@@ -105,7 +105,7 @@ End FileChunks.
      js_run (gen b) t data ij = render_impl b t data ij.
    PROVED here (partial): for a registry whose templates are those of ONE file of the subset (namespace, templates
    with bodies of the statement subset of Model/MiniJS.v: raw text, print, let (both forms), if, switch, foreach, for over
-   range, css, call (all forms, recursion allowed), msg without plural and without a bundle),
+   range, css, call (all forms, recursion allowed), msg without a bundle: without plural, or one plural with numeric cases),
      (Gen) soyjs.Write's model answers Ok with the header lines, the namespace declarations and the printed function
            table jp = c04_jprog_chain p 0 -- and nothing else (no import line);
      (Go)  Renderer.Execute of any template of the file on data of the subset succeeds and writes text;
@@ -114,7 +114,7 @@ End FileChunks.
    an answer: every value printed is a printable scalar, every call finds its template in the file, ...).
    OUTSIDE: (a) the ES6 formatter (c04_imp_free / cn_ok fail: calls are renamed and imported); (b) the step from the
    emitted text to a function table inside a real engine (parsing the printed functions back, namespace objects,
-   soyutils.js): node correspondence of the harness; (c) messages with {plural} and messages rendered from a bundle;
+   soyutils.js): node correspondence of the harness; (c) nested plurals and messages rendered from a bundle;
    (d) several files in one registry (calls across files). *)
 Theorem gen_file_correct_partial cf o fname ns nsae p F :
   c_oblig cf = [] -> (forall x, c_ij cf = Some x -> core_value x = true) -> r_templates (c_reg cf) = c04_templates p ->
